@@ -645,17 +645,33 @@ class CG:
         return assigned
 
     def program(self):
+        # second fault kind: one field is assigned on some paths only (or never) by the whole constructor and read afterwards
+        leave_out = None
+        if self.fault and self.i(0, 3) == 0:
+            self.fault_slot = 10 ** 6
+            leave_out = self.pick(["u", "v", "w"])
         assigned = set()
         for _ in range(self.i(2, 5)):
             assigned = self.stmt(2, assigned, 0)
         # complete the constructor: every field still missing is assigned at the end (the checker demands it)
         for f in self.FIELDS:
-            if f not in assigned:
+            if f not in assigned and f != leave_out:
                 self.emit(2, "self.%s := %s" % (f, self.value(f, assigned)))
                 assigned = assigned | {f}
-        head = ["class TK", "    def u: Int", "    def v: Int", "    def w: Int", "    def q: P", "    def z: Int := 5",
-                "    def __init__(self, p: Int, c: Bool) =>"]
-        tail = ["def t1 := TK(%d, True)" % self.i(0, 3), "def t2 := TK(%d, False)" % self.i(0, 3), "gi(t1.u + t2.v)"]
+        if leave_out and leave_out not in assigned:
+            self.fault_done = {"kind": "field_not_assigned_on_every_path", "field": leave_out}
+        # the class may have a parent that declares fields of the same names as nullable with an initial value: the fields this
+        # class declares itself stay its own obligation
+        parent = []
+        inherit = ""
+        if self.chance(40):
+            names = [f for f in ("u", "v", "w") if self.chance(50)] or ["u"]
+            parent = ["class PK"] + ["    def %s: Int? := None" % f for f in names] + ["    def pz: Int := 2"]
+            inherit = ": PK"
+            self.features.add("parent_declares_same_field_names")
+        head = parent + ["class TK%s" % inherit, "    def u: Int", "    def v: Int", "    def w: Int", "    def q: P",
+                         "    def z: Int := 5", "    def __init__(self, p: Int, c: Bool) =>"]
+        tail = ["def t1 := TK(%d, True)" % self.i(0, 3), "def t2 := TK(%d, False)" % self.i(0, 3), "gi(t1.u + t2.v + t1.w + t2.w)"]
         return CT_HEADER + "\n".join(head + self.lines + tail) + "\n"
 
 
